@@ -22,6 +22,7 @@ pub uninterp spec fn fkey(x: f32) -> int;
 pub open spec fn pair_le(a: (f32, u32), b: (f32, u32)) -> bool { fkey(a.0) < fkey(b.0) || (fkey(a.0) == fkey(b.0) && a.1 <= b.1) }
 
 pub assume_specification[u64::ilog2](x: u64) -> (r: u32) requires x > 0 ensures r <= 63;
+pub uninterp spec fn f32_inf_spec() -> f32;
 #[verifier::external_body]
 pub fn f32_infinity_() -> (r: f32) ensures r == f32_inf_spec() { unimplemented!() }
 
@@ -56,21 +57,30 @@ impl NodeQueue {
 #[verifier::reject_recursive_types(T)]
 pub struct BinaryHeap<T> { x: Vec<T> }
 impl<T> BinaryHeap<T> { pub uninterp spec fn view(&self) -> Multiset<T>; }
+/// the operations applied to the traversal queue, in order. A `BinaryHeap` is a deterministic data structure: what `pop` returns
+/// is a function of the operations applied so far (`pop_of`, uninterpreted; the multiset facts below say it is an element of the
+/// heap). This is what makes the traversal a function of the database and the query, independent of the budget (C03 monotonicity).
+pub enum HOp { New, Roots(OrderedFloat, Seq<u32>), Push((OrderedFloat, NodeId)), Pop }
+pub uninterp spec fn pop_of(h: Seq<HOp>) -> Option<(OrderedFloat, NodeId)>;
 impl BinaryHeap<(OrderedFloat, NodeId)> {
+    pub uninterp spec fn hist(&self) -> Seq<HOp>;
     #[verifier::external_body]
-    pub fn with_capacity(n: usize) -> (r: Self) ensures r.view() == Multiset::<(OrderedFloat, NodeId)>::empty() { unimplemented!() }
+    pub fn with_capacity(n: usize) -> (r: Self) ensures r.view() == Multiset::<(OrderedFloat, NodeId)>::empty(), r.hist() == seq![HOp::New] { unimplemented!() }
     #[verifier::external_body]
-    pub fn push(&mut self, x: (OrderedFloat, NodeId)) ensures final(self).view() == old(self).view().insert(x) { unimplemented!() }
-    /// pop returns a maximum w.r.t. (OrderedFloat, NodeId); only membership is specified here
+    pub fn push(&mut self, x: (OrderedFloat, NodeId)) ensures final(self).view() == old(self).view().insert(x), final(self).hist() == old(self).hist().push(HOp::Push(x)) { unimplemented!() }
+    /// pop returns a maximum w.r.t. (OrderedFloat, NodeId); only membership is specified here, plus determinism (`pop_of`)
     #[verifier::external_body]
     pub fn pop(&mut self) -> (r: Option<(OrderedFloat, NodeId)>)
-        ensures match r { Some(x) => old(self).view().count(x) > 0 && final(self).view() == old(self).view().remove(x), None => old(self).view().len() == 0 && final(self).view() == old(self).view() }
+        ensures r == pop_of(old(self).hist()),
+            match r { Some(x) => old(self).view().count(x) > 0 && final(self).view() == old(self).view().remove(x) && final(self).hist() == old(self).hist().push(HOp::Pop),
+                      None => old(self).view().len() == 0 && final(self).view() == old(self).view() && final(self).hist() == old(self).hist() }
     { unimplemented!() }
     /// rule R7 target for `queue.extend(repeat(p).zip(roots.iter().map(NodeId::tree)))`
     #[verifier::external_body]
     pub fn extend_roots_(&mut self, p: OrderedFloat, roots: &ItemIds)
         ensures forall|x: (OrderedFloat, NodeId)| final(self).view().count(x) > 0 ==> (old(self).view().count(x) > 0 || (x.1.mode == NodeMode::Tree && roots@.contains(x.1.item))),
             forall|k: int| 0 <= k < roots@.len() ==> final(self).view().count((p, NodeId { mode: NodeMode::Tree, item: #[trigger] roots@[k] })) > 0,
+            final(self).hist() == old(self).hist().push(HOp::Roots(p, roots@)),
     { unimplemented!() }
 }
 impl BinaryHeap<Reverse<(OrderedFloat, ItemId)>> {
@@ -109,6 +119,8 @@ pub fn extend_from_bitmap_(v: &mut Vec<u32>, b: &RoaringBitmap)
     ensures final(v)@.len() >= old(v)@.len(), forall|i: int| 0 <= i < old(v)@.len() ==> final(v)@[i] == old(v)@[i],
         forall|i: int| old(v)@.len() <= i < final(v)@.len() ==> b@.contains(#[trigger] final(v)@[i]),
         forall|x: u32| b@.contains(x) ==> final(v)@.contains(x),
+        // the members are appended in ascending order (roaring's iteration order)
+        final(v)@ == old(v)@ + bm_seq(b@),
 { unimplemented!() }
 
 /// A4: a Vec<u32> never holds usize::MAX elements (allocations are limited to isize::MAX bytes)
